@@ -146,6 +146,45 @@ func init() {
 			}
 			pairs = append(pairs, pair{a, priv, pub})
 		}
+		// generated keys carry what was asked for, whatever the key id (also none) and on every run (the attributes
+		// are set from a Go map, so repeat): algorithm, use=sig, key id; both halves validate
+		for _, a := range []jwa.SignatureAlgorithm{jwa.EdDSA, jwa.ES512, jwa.PS512} {
+			reps := 24
+			if a == jwa.PS512 {
+				reps = 3
+				if thorough {
+					reps = 12
+				}
+			}
+			for r := 0; r < reps; r++ {
+				id := []string{"", "", "k", "a b"}[r%4]
+				priv, pub, err := jwkutil.NewKeyPair(id, a)
+				c := sx.L(sx.A("generate"), sx.A(a.String()), sx.A(id))
+				if err != nil {
+					oracleFail("C18", "generate", c, err.Error())
+					break
+				}
+				bad := ""
+				for hi, set := range []jwk.Set{priv, pub} {
+					k, ok := set.Key(0)
+					if !ok || set.Len() != 1 {
+						bad = "not a singleton set"
+						break
+					}
+					if err := jwkutil.Validate(k); err != nil {
+						bad = fmt.Sprintf("half %d does not validate: %v", hi, err)
+					}
+					if k.Algorithm().String() != a.String() || k.KeyUsage() != "sig" || k.KeyID() != id {
+						bad = fmt.Sprintf("half %d has alg=%q use=%q kid=%q, asked for alg=%q use=sig kid=%q", hi, k.Algorithm(), k.KeyUsage(), k.KeyID(), a, id)
+					}
+				}
+				if bad != "" {
+					oracleFail("C18", "generated-key-attributes", c, bad)
+					break
+				}
+				stat("C18", "generated-checked")
+			}
+		}
 		step := &signature.CommandStepWithInvariants{CommandStep: pipeline.CommandStep{Command: "echo c18"}, RepositoryURL: "repo"}
 		for i, p := range pairs {
 			sk, _ := p.priv.Key(0)
